@@ -181,7 +181,7 @@ class Server(object):
         os.close(w)
         self.pid = pid
         if port is None:
-            ready, _, _ = select.select([r], [], [], 20)
+            ready, _, _ = select.select([r], [], [], 90)
             data = os.read(r, 64) if ready else b''
             os.close(r)
             if not data:
@@ -191,7 +191,7 @@ class Server(object):
         else:
             os.close(r)
             self.port = port
-            deadline = time.time() + 20
+            deadline = time.time() + 90
             while True:
                 try:
                     s = socket.create_connection(('127.0.0.1', port), timeout=1)
@@ -216,7 +216,7 @@ class Server(object):
                 shutil.copyfile(os.path.join(self.root, 'work', body), dst)
             return {'status': 'fs-event', 'body': None}
         try:
-            c = http.client.HTTPConnection('127.0.0.1', self.port, timeout=20)
+            c = http.client.HTTPConnection('127.0.0.1', self.port, timeout=90)
             data = body.encode('utf8') if isinstance(body, str) else body
             hdrs = {'Content-Type': 'application/json'}
             hdrs.update(headers)
@@ -242,7 +242,7 @@ class Server(object):
         self.pid = None
         return False
 
-    def wait_exit(self, timeout=5):
+    def wait_exit(self, timeout=30):
         deadline = time.time() + timeout
         while time.time() < deadline:
             if not self.alive():
